@@ -120,7 +120,8 @@ def normalise_items(items):
                     "ret_self": it["ret_self"], "ret_mut": it["ret_mut"], "direct": it["direct"], "calls_ctor": it["calls_ctor"],
                     "has_unsafe": it["has_unsafe"], "in_type_impl": it["in_type_impl"], "field_vis": it.get("field_vis", ""),
                     "for_mut_ref": st.strip().startswith("&") and "mut" in st.split()[:4],
-                    "writes_field": bool(it.get("writes_field")), "mut_self_param": bool(it.get("mut_self_param"))})
+                    "writes_field": bool(it.get("writes_field")), "mut_self_param": bool(it.get("mut_self_param")),
+                    "non_exhaustive": bool(it.get("non_exhaustive"))})
     return out
 
 
